@@ -714,7 +714,6 @@ async fn run_file(dir: &std::path::Path, cfg0: &FCfg, evs: &[FEv]) -> FRaw {
     let server = tokio::spawn(async move { loop { if g2.process().await.is_err() { break; } } });
     let mut agents: Vec<GateAgent> = vec![agent];
     let mut alive = vec![];
-    let dummy_unit = || rotonda::units::Unit::BgpTcpIn(hook::parse_unit("listen = \"127.0.0.1:1\"\nmy_asn = 1\nmy_bgp_id = [1, 1, 1, 1]\n").unwrap());
     for ev in evs {
         match ev {
             FEv::Emit(r) => {
@@ -854,11 +853,251 @@ fn file_witnesses() -> Vec<(FCfg, Vec<FEv>)> {
     ]
 }
 
+// =================================================================== filter
+
+#[derive(Clone, Debug, PartialEq)]
+struct XCfg { name: u8, sources: Vec<u8> }
+#[derive(Clone, Debug, PartialEq)]
+enum XEv { Eos(u8, u32), Reload(bool, XCfg) } // Reload(filter first?, cfg): the order is not part of the case line (both must give the same)
+
+fn show_units(v: &[u8]) -> String { if v.is_empty() { "-".into() } else { join(v.iter(), "+") } }
+fn parse_units(s: &str) -> Option<Vec<u8>> { if s == "-" { Some(vec![]) } else { s.split('+').map(|x| x.parse().ok()).collect() } }
+fn show_xcfg(c: &XCfg) -> String { format!("n{},{}", c.name, show_units(&c.sources)) }
+fn parse_xcfg(s: &str) -> Option<XCfg> { let (n, u) = s.split_once(',')?; Some(XCfg { name: n.strip_prefix('n')?.parse().ok()?, sources: parse_units(u)? }) }
+fn show_xev(e: &XEv) -> String { match e { XEv::Eos(u, t) => format!("s{u}.{t}"), XEv::Reload(_, c) => format!("R{}", show_xcfg(c)) } }
+fn parse_xev(s: &str, k: usize) -> Option<XEv> { let (h, r) = s.split_at(1); Some(match h { "s" => { let (u, t) = r.split_once('.')?; XEv::Eos(u.parse().ok()?, t.parse().ok()?) } "R" => XEv::Reload(k % 2 == 0, parse_xcfg(r)?), _ => return None }) }
+fn show_xcase(c: &XCfg, evs: &[XEv]) -> String { format!("X|{}|{}", show_xcfg(c), join(evs.iter().map(show_xev), ";")) }
+fn parse_xcase(line: &str) -> Option<(XCfg, Vec<XEv>)> {
+    let f: Vec<&str> = line.split('|').collect();
+    if f.len() != 3 || f[0] != "X" { return None; }
+    Some((parse_xcfg(f[1])?, if f[2].is_empty() { vec![] } else { f[2].split(';').enumerate().map(|(k, e)| parse_xev(e, k)).collect::<Option<Vec<_>>>()? }))
+}
+
+fn dummy_unit() -> rotonda::units::Unit { rotonda::units::Unit::BgpTcpIn(hook::parse_unit("listen = \"127.0.0.1:1\"\nmy_asn = 1\nmy_bgp_id = [1, 1, 1, 1]\n").unwrap()) }
+
+/// A unit the harness plays: a gate served like every unit's main loop serves it.
+struct Upstream { gate: Arc<Gate>, agent: GateAgent, server: tokio::task::JoinHandle<()> }
+fn upstream() -> Upstream {
+    let (gate, agent) = Gate::new(8);
+    let gate = Arc::new(gate);
+    let g2 = gate.clone();
+    let server = tokio::spawn(async move { loop { if g2.process().await.is_err() { break; } } });
+    Upstream { gate, agent, server }
+}
+
+async fn run_filter(cfg0: &XCfg, evs: &[XEv]) -> (Vec<String>, bool) {
+    use rotonda::verif::reconfunits::filter as fh;
+    let mut ups: Vec<Upstream> = (0..3).map(|_| upstream()).collect();
+    let links = |ups: &mut Vec<Upstream>, c: &XCfg| -> Vec<rotonda::comms::Link> { c.sources.iter().map(|u| ups[*u as usize % 3].agent.create_link()).collect() };
+    let (fgate, mut fagent) = Gate::new(8);
+    let collected: Arc<Mutex<Vec<Update>>> = Arc::new(Mutex::new(vec![]));
+    let c2 = collected.clone();
+    let target = Arc::new(FnTarget(Arc::new(move |u: Update| { c2.lock().unwrap().push(u); })));
+    let Some(unit) = fh::filter_unit(&format!("f{}", cfg0.name), links(&mut ups, cfg0)) else { return (vec!["bad-config".into()], false) };
+    let comp = rotonda::manager::verif_hooks_c17::component("filter", "filter", rotonda::verif::c17::new_register());
+    let coord = Coordinator::new(1);
+    let wp = coord.clone().track("filter".into());
+    let (probe, fut) = fh::run(unit, comp, fgate, wp);
+    let task = tokio::spawn(fut);
+    coord.wait(|_, _| {}).await;
+    let mut down = fagent.create_link();
+    down.set_direct_update_target(target.clone());
+    let _ = down.connect(false).await;
+    let mut downs = vec![down];
+    let mut toks = vec![];
+    for ev in evs {
+        match ev {
+            XEv::Eos(u, t) => {
+                let n0 = collected.lock().unwrap().len();
+                ups[*u as usize % 3].gate.update_data(Update::UpstreamStatusChange(rotonda::payload::UpstreamStatus::EndOfStream { ingress_id: *t })).await;
+                tokio::time::sleep(Duration::from_millis(2)).await;
+                let g = collected.lock().unwrap();
+                let got: Vec<String> = g[n0..].iter().map(|u| match u { Update::UpstreamStatusChange(rotonda::payload::UpstreamStatus::EndOfStream { ingress_id }) => format!("f{ingress_id}"), _ => "other".into() }).collect();
+                toks.push(if got.is_empty() { "-".into() } else { got.join("+") });
+            }
+            XEv::Reload(filter_first, c) => {
+                // one load: a new gate per unit, links of the new file point at the new gates
+                let mut new_ups: Vec<(Gate, GateAgent)> = (0..3).map(|_| Gate::new(8)).collect();
+                let new_links: Vec<rotonda::comms::Link> = c.sources.iter().map(|u| new_ups[*u as usize % 3].1.create_link()).collect();
+                let Some(newf) = fh::filter_unit(&format!("f{}", c.name), new_links) else { toks.push("bad-config".into()); continue };
+                let (nf_gate, mut nf_agent) = Gate::new(8);
+                let mut d = nf_agent.create_link();
+                d.set_direct_update_target(target.clone());
+                let _ = nf_gate.process_until(async { let _ = d.connect(false).await; }).await;
+                downs.push(d);
+                let swap_ups = |ups: &mut Vec<Upstream>, new_ups: Vec<(Gate, GateAgent)>| {
+                    let old: Vec<GateAgent> = ups.iter().map(|u| u.agent.clone()).collect();
+                    async move { let mut agents = vec![]; for (o, (g, a)) in old.iter().zip(new_ups.into_iter()) { let _ = o.reconfigure(dummy_unit(), g).await; agents.push(a); } agents }
+                };
+                let new_agents;
+                if *filter_first {
+                    let _ = fagent.reconfigure(rotonda::units::Unit::Filter(newf), nf_gate).await;
+                    new_agents = swap_ups(&mut ups, std::mem::take(&mut new_ups)).await;
+                } else {
+                    new_agents = swap_ups(&mut ups, std::mem::take(&mut new_ups)).await;
+                    let _ = fagent.reconfigure(rotonda::units::Unit::Filter(newf), nf_gate).await;
+                }
+                for (u, a) in ups.iter_mut().zip(new_agents.into_iter()) { u.agent = a; }
+                fagent = nf_agent;
+                // acknowledged once a ReportLinks sent through the new agent has been answered (the arm awaits its connects first)
+                let rep = UpstreamLinkReport::new();
+                let _ = fagent.report_links(rep.clone()).await;
+                let r2 = rep.clone();
+                let acked = wait_until(Duration::from_secs(4), || r2.ready() || task.is_finished()).await && rep.ready();
+                tokio::time::sleep(Duration::from_millis(5)).await;
+                let subs: Vec<usize> = (0..3).filter(|i| rotonda::verif::gate::gate_slots(&ups[*i].gate).0.len() >= 1).collect();
+                toks.push(format!("{}n{}:S{}", if acked { "" } else { "!" }, probe.get().trim_start_matches('f'), join(subs.iter(), "")));
+            }
+        }
+    }
+    let died = task.is_finished();
+    fagent.terminate().await;
+    let _ = tokio::time::timeout(Duration::from_secs(2), task).await;
+    for u in &ups { u.agent.terminate().await; }
+    for u in ups { let _ = tokio::time::timeout(Duration::from_secs(1), u.server).await; }
+    drop(downs);
+    (toks, died)
+}
+
+fn filter_case(cfg0: &XCfg, evs: &[XEv]) -> Outcome {
+    let tname = format!("reconfunits-{}", CASE_NO.fetch_add(1, std::sync::atomic::Ordering::SeqCst));
+    let rt = tokio::runtime::Builder::new_multi_thread().worker_threads(2).thread_name(tname.clone()).enable_all().build().unwrap();
+    let (toks, died) = rt.block_on(run_filter(cfg0, evs));
+    rt.shutdown_timeout(Duration::from_millis(200));
+    let panics = take_panics(&tname);
+    let mut fails: Vec<String> = vec![];
+    let mut notes: Vec<String> = vec![];
+    if died || !panics.is_empty() { fails.push(format!("reconf:filter:unit-task-ended {}", panics.join(";").replace(' ', "_"))); }
+    let mut cur = cfg0.clone();
+    let mut reloads = 0;
+    for (i, ev) in evs.iter().enumerate() {
+        let got = toks.get(i).cloned().unwrap_or_default();
+        match ev {
+            XEv::Eos(u, t) => {
+                let want = if cur.sources.iter().any(|s| s % 3 == u % 3) { format!("f{t}") } else { "-".to_string() };
+                if got != want { fails.push(format!("reconf:filter:sources-not-adopted event {i} {}: expected {want} got {got} (sources in force {})", show_xev(ev), show_units(&cur.sources))); }
+                notes.push(format!("eos-{}", if want == "-" { "not-a-source" } else { "source" }));
+            }
+            XEv::Reload(ff, c) => {
+                reloads += 1;
+                let mut subs: Vec<u8> = c.sources.iter().map(|s| s % 3).collect(); subs.sort(); subs.dedup();
+                let (gn, gs) = got.split_once(":S").unwrap_or(("", ""));
+                if gn != format!("n{}", c.name) { fails.push(format!("reconf:filter:filter_name-not-adopted event {i} {}: got {got}", show_xev(ev))); }
+                if gs != join(subs.iter(), "") { fails.push(format!("reconf:filter:sources-not-adopted event {i} {}: subscribed to {gs}", show_xev(ev))); }
+                notes.push(format!("reload-{}{}", if *ff { "filter-first" } else { "upstream-first" }, if *c == cur { "-identical" } else { "" }));
+                cur = c.clone();
+            }
+        }
+    }
+    for f in &fails { notes.push(format!("oracle-{}", f.split_whitespace().next().unwrap_or(""))); }
+    let oracle = fail_line(&mut fails);
+    Outcome { case: show_xcase(cfg0, evs), imp: toks.join(" "), oracle, nontrivial: reloads >= 1 && evs.iter().any(|e| matches!(e, XEv::Eos(..))), notes, discard: false }
+}
+
+fn gen_filter(g: &mut Rng) -> (XCfg, Vec<XEv>) {
+    let xc = |g: &mut Rng| { let mut s: Vec<u8> = (0..3u8).filter(|_| g.chance(1, 2)).collect(); if s.is_empty() { s.push(g.below(3) as u8); } if g.chance(1, 3) { s.reverse(); } XCfg { name: g.below(3) as u8, sources: s } };
+    let cfg0 = xc(g);
+    let mut cur = cfg0.clone();
+    let mut evs = vec![];
+    let mut tag = 10;
+    for k in 0..g.range(3, 10) {
+        if g.chance(2, 3) { tag += 1; evs.push(XEv::Eos(g.below(3) as u8, tag)); }
+        else { let n = match g.below(3) { 0 => cur.clone(), 1 => XCfg { name: (cur.name + 1) % 3, ..cur.clone() }, _ => xc(g) }; cur = n.clone(); evs.push(XEv::Reload(k % 2 == 0, n)); }
+    }
+    (cfg0, evs)
+}
+
+// =================================================================== null-out
+
+#[derive(Clone, Debug, PartialEq)]
+enum NEv { Report, Reload(Vec<u8>) }
+fn show_nev(e: &NEv) -> String { match e { NEv::Report => "r".into(), NEv::Reload(s) => format!("R{}", show_units(s)) } }
+fn parse_nev(s: &str) -> Option<NEv> { if s == "r" { Some(NEv::Report) } else { Some(NEv::Reload(parse_units(s.strip_prefix('R')?)?)) } }
+fn show_ncase(c: &[u8], evs: &[NEv]) -> String { format!("N|{}|{}", show_units(c), join(evs.iter().map(show_nev), ";")) }
+fn parse_ncase(line: &str) -> Option<(Vec<u8>, Vec<NEv>)> {
+    let f: Vec<&str> = line.split('|').collect();
+    if f.len() != 3 || f[0] != "N" { return None; }
+    Some((parse_units(f[1])?, if f[2].is_empty() { vec![] } else { f[2].split(';').map(parse_nev).collect::<Option<Vec<_>>>()? }))
+}
+
+async fn run_null(cfg0: &[u8], evs: &[NEv]) -> (Vec<String>, bool) {
+    // gates[gen][unit]; a null-out target never connects its links, so nobody has to serve these gates
+    let mut gens: Vec<Vec<(Gate, GateAgent)>> = vec![(0..3).map(|_| Gate::new(8)).collect()];
+    let mk = |gens: &mut Vec<Vec<(Gate, GateAgent)>>, srcs: &[u8]| -> Vec<rotonda::comms::Link> { let g = gens.last_mut().unwrap(); srcs.iter().map(|u| g[*u as usize % 3].1.create_link()).collect() };
+    let target = rotonda::verif::reconfunits::null_target(mk(&mut gens, cfg0));
+    let comp = rotonda::manager::verif_hooks_c17::component("null", "null-out", rotonda::verif::c17::new_register());
+    let coord = Coordinator::new(1);
+    let wp = coord.clone().track("null".into());
+    let (cmd_tx, cmd_rx) = tokio::sync::mpsc::channel::<TargetCommand>(100);
+    let h = tokio::spawn(async move { target.run(comp, cmd_rx, wp).await });
+    coord.wait(|_, _| {}).await;
+    let mut toks = vec![];
+    for ev in evs {
+        if let NEv::Reload(srcs) = ev {
+            gens.push((0..3).map(|_| Gate::new(8)).collect());
+            let t = rotonda::verif::reconfunits::null_target(mk(&mut gens, srcs));
+            let _ = cmd_tx.send(TargetCommand::Reconfigure { new_config: t }).await;
+        }
+        let rep = UpstreamLinkReport::new();
+        let _ = cmd_tx.send(TargetCommand::ReportLinks { report: rep.clone() }).await;
+        // an empty source list is not reported at all: give it a moment, then read what is there
+        let r2 = rep.clone();
+        let hh = &h;
+        wait_until(Duration::from_millis(if matches!(ev, NEv::Reload(s) if s.is_empty()) { 150 } else { 3000 }), || r2.ready() || hh.is_finished()).await;
+        let dbg = format!("{:?}", rep);
+        let mut out = vec![];
+        for part in dbg.split("gate_id: ").skip(1) {
+            let id: String = part.chars().take_while(|c| c.is_ascii_hexdigit() || *c == '-').collect();
+            let mut found = "?".to_string();
+            for (gi, g) in gens.iter().enumerate() { for (ui, (gate, _)) in g.iter().enumerate() { if gate.id().to_string() == id { found = format!("{ui}.{gi}"); } } }
+            out.push(found);
+        }
+        toks.push(if !rep.ready() { "none".into() } else if out.is_empty() { "-".into() } else { out.join(",") });
+    }
+    let died = h.is_finished();
+    let _ = cmd_tx.send(TargetCommand::Terminate).await;
+    let _ = tokio::time::timeout(Duration::from_secs(2), h).await;
+    (toks, died)
+}
+
+fn null_case(cfg0: &[u8], evs: &[NEv]) -> Outcome {
+    let tname = format!("reconfunits-{}", CASE_NO.fetch_add(1, std::sync::atomic::Ordering::SeqCst));
+    let rt = tokio::runtime::Builder::new_multi_thread().worker_threads(2).thread_name(tname.clone()).enable_all().build().unwrap();
+    let (toks, died) = rt.block_on(run_null(cfg0, evs));
+    rt.shutdown_timeout(Duration::from_millis(200));
+    let panics = take_panics(&tname);
+    let mut fails: Vec<String> = vec![];
+    if died || !panics.is_empty() { fails.push(format!("reconf:null-out:target-task-ended {}", panics.join(";").replace(' ', "_"))); }
+    let mut cur: Vec<u8> = cfg0.to_vec();
+    let mut gen = 0;
+    let mut reloads = 0;
+    for (i, ev) in evs.iter().enumerate() {
+        if let NEv::Reload(s) = ev { cur = s.clone(); gen += 1; reloads += 1; }
+        let want = if cur.is_empty() { "-".to_string() } else { join(cur.iter().map(|u| format!("{}.{gen}", u % 3)), ",") };
+        let got = toks.get(i).cloned().unwrap_or_default();
+        if got != want { fails.push(format!("reconf:null-out:sources-not-adopted event {i} {}: reports {got}, the configuration in force has {want}", show_nev(ev))); }
+    }
+    let notes = fails.iter().map(|f| format!("oracle-{}", f.split_whitespace().next().unwrap_or(""))).collect();
+    let oracle = fail_line(&mut fails);
+    Outcome { case: show_ncase(cfg0, evs), imp: toks.join(" "), oracle, nontrivial: reloads >= 1, notes, discard: false }
+}
+
+fn gen_null(g: &mut Rng) -> (Vec<u8>, Vec<NEv>) {
+    let src = |g: &mut Rng| { let mut s: Vec<u8> = (0..3u8).filter(|_| g.chance(1, 2)).collect(); if s.is_empty() { s.push(g.below(3) as u8); } if g.chance(1, 3) { s.reverse(); } s };
+    let cfg0 = src(g);
+    let mut cur = cfg0.clone();
+    let mut evs = vec![];
+    for _ in 0..g.range(1, 6) { if g.chance(1, 3) { evs.push(NEv::Report); } else { let n = if g.chance(1, 4) { cur.clone() } else { src(g) }; cur = n.clone(); evs.push(NEv::Reload(n)); } }
+    (cfg0, evs)
+}
+
 // =================================================================== main
 
 fn replay_line(flags: Flags, line: &str) -> Option<Outcome> {
     if let Some((c, e)) = parse_bcase(line) { return Some(bgp_case(flags, &c, &e)); }
     if let Some((c, e)) = parse_fcase(line) { return Some(file_case(&c, &e)); }
+    if let Some((c, e)) = parse_xcase(line) { return Some(filter_case(&c, &e)); }
+    if let Some((c, e)) = parse_ncase(line) { return Some(null_case(&c, &e)); }
     None
 }
 
@@ -892,17 +1131,25 @@ fn main() {
         return;
     }
     for o in wouts { record(&mut rec, o); }
+    record(&mut rec, filter_case(&XCfg { name: 1, sources: vec![0, 1] }, &[XEv::Eos(0, 5), XEv::Eos(2, 6), XEv::Reload(true, XCfg { name: 2, sources: vec![1, 2] }), XEv::Eos(0, 7), XEv::Eos(2, 8), XEv::Reload(false, XCfg { name: 2, sources: vec![1, 2] }), XEv::Eos(1, 9)]));
+    record(&mut rec, null_case(&[0, 2], &[NEv::Report, NEv::Reload(vec![1]), NEv::Report, NEv::Reload(vec![1])]));
     // ---- generated histories
     let budget = std::env::var("VERIF_BUDGET").ok().and_then(|b| b.parse().ok()).map(Duration::from_secs).unwrap_or(if args.thorough { Duration::from_secs(200) } else { Duration::from_secs(22) });
     let seed = args.seed;
     let nthreads = 8usize;
+    let cheap_cap = if args.thorough { 4000usize } else { 400 };
     let handles: Vec<_> = (0..nthreads).map(|ti| {
         std::thread::spawn(move || {
             let mut g = Rng::new(seed.wrapping_mul(1000).wrapping_add(ti as u64 + 1));
             let mut outs = vec![];
             while t0.elapsed() < budget {
                 if ti < 7 { let (c, e) = gen_bgp(&mut g); outs.push(bgp_case(flags, &c, &e)); }
-                else { let (c, e) = gen_file(&mut g); outs.push(file_case(&c, &e)); }
+                else {
+                    // one thread for the three cheap component types; the counts are capped so that they do not crowd out the bgp cases
+                    let k = outs.len();
+                    if k >= cheap_cap { std::thread::sleep(Duration::from_millis(50)); continue; }
+                    match k % 4 { 0 | 1 => { let (c, e) = gen_file(&mut g); outs.push(file_case(&c, &e)); } 2 => { let (c, e) = gen_filter(&mut g); outs.push(filter_case(&c, &e)); } _ => { let (c, e) = gen_null(&mut g); outs.push(null_case(&c, &e)); } }
+                }
             }
             outs
         })
